@@ -14,6 +14,7 @@ import (
 	"net"
 	"os"
 	"sync"
+	"syscall"
 	"time"
 
 	modbus "github.com/aldas/go-modbus-client"
@@ -35,6 +36,9 @@ const (
 	clntRdTimeoutBare    // os.ErrDeadlineExceeded itself
 	clntRdTimeoutWrapped // fmt.Errorf("...: %w", os.ErrDeadlineExceeded): no Timeout method
 	clntRdEOFWrapped     // fmt.Errorf("...: %w", io.EOF)
+	// a hard I/O failure that says Timeout() == true but is not a read deadline:
+	// &net.OpError{Err: os.NewSyscallError("read", syscall.ETIMEDOUT)}
+	clntRdIOErrTimeout
 )
 
 // the total read timeout configured when the script contains a "timer fired" step, and how long
@@ -56,6 +60,7 @@ type clntStep struct {
 
 type clntScript struct {
 	swd, wr, fl bool
+	short       int // > 0: Write takes only this many bytes per call and returns (short, nil)
 	steps       []clntStep
 	timerT      time.Duration // the ReadTimeout to configure when the script has a timer step (0: clntTimerT)
 	gate        *clntGate     // stream cpar: every Read waits for the other clients of the batch
@@ -66,7 +71,13 @@ func (s clntScript) val() V {
 	for i, x := range s.steps {
 		st[i] = L(I(x.ctx), Bool(x.timer), Bool(x.pick), I(x.rd), B(x.data))
 	}
-	return L(Bool(s.swd), Bool(s.wr), Bool(s.fl), L(st...))
+	wr := I(0)
+	if s.wr {
+		wr = I(1)
+	} else if s.short > 0 {
+		wr = I(2 + s.short)
+	}
+	return L(Bool(s.swd), wr, Bool(s.fl), L(st...))
 }
 
 func (s clntScript) hasTimer() bool {
@@ -231,6 +242,9 @@ func (t *clntTransport) Write(p []byte) (int, error) {
 	if t.sc.wr || (t.closed && t.serial) {
 		return 0, clntErrWrite
 	}
+	if t.sc.short > 0 && t.sc.short < len(p) {
+		return t.sc.short, nil // a short count without an error
+	}
 	return len(p), nil
 }
 
@@ -269,6 +283,9 @@ func (t *clntTransport) Read(p []byte) (int, error) {
 	case clntRdIOErr:
 		n = copy(p, st.data)
 		err = &net.OpError{Op: "read", Net: "scripted", Err: clntErrRead}
+	case clntRdIOErrTimeout:
+		n = copy(p, st.data)
+		err = &net.OpError{Op: "read", Net: "scripted", Err: os.NewSyscallError("read", syscall.ETIMEDOUT)}
 	}
 	t.rec.add(L(I(5), B(p[:n]), I(clntErrClass(err))))
 	// what the next iteration's select will see
@@ -390,8 +407,8 @@ func clntProject(resp packet.Response, err error) V {
 			return vErr(nilv, I(1), I(40))
 		case errors.Is(ce.Err, clntErrWrite):
 			return vErr(nilv, I(1), I(41))
-		case errors.Is(ce.Err, clntErrRead):
-			return vErr(nilv, I(1), I(42))
+		case errors.Is(ce.Err, clntErrRead), errors.Is(ce.Err, syscall.ETIMEDOUT):
+			return vErr(nilv, I(1), I(42)) // the cause is preserved
 		case errors.Is(ce.Err, clntErrFlush):
 			return vErr(nilv, I(1), I(43))
 		case errors.Is(ce.Err, context.Canceled):
